@@ -599,7 +599,7 @@ func compareAndWriteFile(filePath string, b []byte) (bool, error) {
 			return false, err
 		}
 
-		if err := os.WriteFile(filePath, b, 0775); err != nil {
+		if err := writeFileAtomic(filePath, b, 0775); err != nil {
 			return false, err
 		}
 		return true, nil
@@ -620,14 +620,34 @@ func compareAndWriteFile(filePath string, b []byte) (bool, error) {
 		return false, nil
 	}
 
-	if len(buf) != len(b) {
-		if err := f.Truncate(int64(len(b))); err != nil {
-			return false, err
-		}
-	}
-
-	if _, err := f.WriteAt(b, 0); err != nil {
+	if err := writeFileAtomic(filePath, b, 0775); err != nil {
 		return false, err
 	}
 	return true, nil
+}
+
+// writeFileAtomic writes b to a temporary file next to filePath and renames it into
+// place, so that a crash at any point leaves filePath either absent, with its old
+// content, or with the complete new content -- never empty or partially written.
+// The temporary name does not match any metadata suffix, so leftovers are ignored.
+func writeFileAtomic(filePath string, b []byte, perm os.FileMode) error {
+	tmp, err := os.CreateTemp(filepath.Dir(filePath), ".tmp-")
+	if err != nil {
+		return err
+	}
+	_, err = tmp.Write(b)
+	if err == nil {
+		err = tmp.Chmod(perm)
+	}
+	if closeErr := tmp.Close(); err == nil {
+		err = closeErr
+	}
+	if err == nil {
+		err = os.Rename(tmp.Name(), filePath)
+	}
+	if err != nil {
+		os.Remove(tmp.Name())
+		return err
+	}
+	return nil
 }
